@@ -156,12 +156,4 @@ mod verif_demo_xlswb_2 {
         b[4] = 0xFF; // cce = 255
         let _ = open(&globals_with(rec(0x0018, &b)));
     }
-    // Lbl with cch (name length) larger than what follows the fixed part: `&buf[1..=cch]` in read_unicode_string_no_cch
-    #[test]
-    #[should_panic]
-    fn verif_demo_xlswb_lbl_cch_beyond_record() {
-        let mut b = vec![0u8; 16];
-        b[3] = 200;
-        let _ = open(&globals_with(rec(0x0018, &b)));
-    }
 }
